@@ -15,7 +15,8 @@
     chain-name <port>                        -> <name>
     wf <ports>                               -> true | false
     setup|clean|sync <ports>                 -> ok | err:<class>
-    srv-add <k|-> <ports> | srv-del <j|-> | srv-gc   -> ok|err file=yes|no   (server protocol, fault at call k / j)
+    srv-add <k|-> <ports> | srv-del <j|-> | srv-gc   -> ok|err file=yes|no
+    srv-restart <pod> <ns> <0|1 ports from the annotation> <ports of the live pod|->  -> ok|err   (daemon restart: the start-up full sync)   (server protocol, fault at call k / j)
     batch-setup|batch-clean <ports>          -> selfcheck=ok|bad <line>…
     set-create <n> <type> <0|1> | set-add <n> <entry> <0|1> | set-del <n> <entry> | set-flush <n>
       | set-destroy <n> | set-list <n> | set-dump
@@ -262,6 +263,12 @@ def step (st : St) (line : String) : St × String :=
       ({ st with T := r.1.T, file := r.1.file },
         (if r.2 then "ok" else "err") ++ " file=" ++ (if r.1.file.isSome then "yes" else "no"))
     | none => bad
+  | "srv-restart" :: name :: ns :: ann :: ws =>
+    match dec name, dec ns, flag ann, parsePorts ws with
+    | some name, some ns, some ann, some live =>
+      let r := restartPod realHash ⟨st.T, st.file⟩ name ns ann live
+      ({ st with T := r.1.T }, if r.2 then "ok" else "err")
+    | _, _, _, _ => bad
   | ["srv-gc"] =>
     let r := gcPod realHash ⟨st.T, st.file⟩
     ({ st with T := r.T, file := r.file }, "ok file=" ++ (if r.file.isSome then "yes" else "no"))
